@@ -665,7 +665,8 @@ func evalConstants(q Q) Q {
 			return &Const{true}
 		}
 	case *Branch:
-		if s.Pattern == "" {
+		// Every branch name contains the empty string, but none equals it.
+		if s.Pattern == "" && !s.Exact {
 			return &Const{true}
 		}
 	case *BranchesRepos:
